@@ -268,6 +268,7 @@ func runC02(c *Ctx) {
 	ruleChannelGuards(c, "C02.6")
 	ruleExprListsFresh(c, "C02.2")
 	ruleLaneIntegrity(c, "C02.12")
+	ruleAsyncFlag(c, "C02.13")
 	ruleGuardReceivers(c, "C02.6")
 	ruleFieldAccessSync(c, "C02.6")
 	ruleSnapshotReadOnly(c, "C02.6")
